@@ -2,8 +2,8 @@ package rules
 
 import (
 	"go/ast"
-	"go/token"
 	"go/types"
+	"strings"
 
 	"golang.org/x/tools/go/cfg"
 
@@ -12,24 +12,90 @@ import (
 
 func init() {
 	register("C06", "other", "T8 normalised comparisons (max / interval overlap), T4 two-sided guards, loop abstraction (every branch / every parent / every pair), provenance (what is gathered, collected and stored), T20 WrapperDelegation",
-		"Decides the structural necessary conditions of the merged vector clock, not its values. (gather) the merged entry of a creator is computed from every branch of that creator: the accumulator starts as the zero entry, is replaced by a branch exactly on the edges `branch is fork-detected` or `branch.Seq > accumulated.Seq` (normal form, so the maximum and not the minimum or the last is kept), the loop is left early only after a fork-detected branch, and the accumulator is stored for the requested validator on every path. (collect) when an event's vector collects a parent's vector the loop covers all branch indexes 0..num-1, an iteration ends without a write only when the parent's entry is empty (Seq == 0 and not fork-detected), the own entry is already fork-detected, or the own Seq is not smaller; the own Seq is overwritten by the parent's exactly on the `mine.Seq < his.Seq` edge and then stored. (fill) every parent's stored vector is collected into the vector that is later stored for the event, over all branches, after the vector was initialised with the event's own (branch, seq, seq). (detect) forks not seen by a single parent: for every validator not already marked, every ordered pair of distinct, non-empty branches is tested with the interval-overlap test MinSeq(a) <= Seq(b) && MinSeq(b) <= Seq(a) (normal form), the fork is marked exactly on that edge, and the pass runs whenever the index has at least one fork. (merge) the merged query gathers, for every creator, that creator's branches from the stored vector of the same event, and returns the stored vector itself only when no fork exists. (adapter) the consensus-side view reads Seq and the fork flag of the same entry. Not decided: that the branch bookkeeping (BranchIDByCreators, MinSeq/Seq ranges per branch) describes the DAG, i.e. the equality of each entry with the graph quantity for all DAGs and indexing orders.",
+		"Decides the structural necessary conditions of the merged vector clock, not its values. Every clause works on the inlined view of its function (c06_inline.go): helpers of the same package that contain the calls the clause talks about are expanded in place (parameters bound to the arguments, single-return predicates substituted into conditions, results handed over through a result variable), so the facts are the same whether a loop, a loop body, a search or the final store is written out or lives in an extracted method; a stored entry may be a result carrier that receives the accumulator after the scan or the fork-detected branch itself. (gather) the merged entry of a creator is computed from every branch of that creator: the accumulator starts as the zero entry, is replaced by a branch exactly on the edges `branch is fork-detected` or `branch.Seq > accumulated.Seq` (normal form, so the maximum and not the minimum or the last is kept), the loop is left early only after a fork-detected branch, and the accumulator is stored for the requested validator on every path. (collect) when an event's vector collects a parent's vector the loop covers all branch indexes 0..num-1, an iteration ends without a write only when the parent's entry is empty (Seq == 0 and not fork-detected), the own entry is already fork-detected, or the own Seq is not smaller; the own Seq is overwritten by the parent's exactly on the `mine.Seq < his.Seq` edge and then stored. (fill) every parent's stored vector is collected into the vector that is later stored for the event, over all branches, after the vector was initialised with the event's own (branch, seq, seq). (detect) forks not seen by a single parent: for every validator not already marked, every ordered pair of distinct, non-empty branches is tested with the interval-overlap test MinSeq(a) <= Seq(b) && MinSeq(b) <= Seq(a) (normal form), the fork is marked exactly on that edge, and the pass runs whenever the index has at least one fork. (merge) the merged query gathers, for every creator, that creator's branches from the stored vector of the same event, and returns the stored vector itself only when no fork exists. (adapter) the consensus-side view reads Seq and the fork flag of the same entry. Not decided: that the branch bookkeeping (BranchIDByCreators, MinSeq/Seq ranges per branch) describes the DAG, i.e. the equality of each entry with the graph quantity for all DAGs and indexing orders.",
 		[]string{"branch i < validators.Len() belongs to creator i (BranchesInfo construction, C05/C08)", "entry encoding Get/Set round-trips (vecfc vector codec)", "fork marker is absorbing and consumers use the merged API (C03)"},
 		runC06)
 }
 
-// c06LoopsAround lists the loops of f's own body that contain pos, outermost first.
-func c06LoopsAround(f *core.FuncInfo, pos token.Pos) []ast.Stmt {
-	var out []ast.Stmt
-	f.InspectOwn(func(n ast.Node) bool {
-		switch s := n.(type) {
-		case *ast.ForStmt, *ast.RangeStmt:
-			if s.Pos() <= pos && pos < s.End() {
-				out = append(out, s.(ast.Stmt))
+// c06Leaf: the calls a clause talks about (methods of the vector / engine types, by method name). They
+// delimit the inlined view: helpers that contain one are expanded, the calls themselves never.
+func c06Leaf(methods ...string) func(*core.CallSite) bool {
+	return func(cs *core.CallSite) bool {
+		if !strings.HasPrefix(cs.Name, "vecengine.") && !strings.HasPrefix(cs.Name, "vecfc.") {
+			return false
+		}
+		for _, m := range methods {
+			if methodNamed(cs.Name, m) {
+				return true
 			}
 		}
-		return true
-	})
-	return out
+		return false
+	}
+}
+
+var (
+	c06LeafVec    = c06Leaf("Get", "Set", "SetForkDetected", "IsForkDetected")
+	c06LeafEngine = c06Leaf("CollectFrom", "InitWithEvent", "SetHighestBefore", "GetHighestBefore", "NewHighestBefore", "MinSeq", "Seq", "IsEmpty", "IsForkDetected", "setForkDetected", "AtLeastOneFork", "GatherFrom")
+)
+
+// c06SliceSources follows whole-variable assignments `x = y` backwards from the slice variable x that is
+// read at `use`: the variables whose slice x may be. An assignment of nil is accepted only when it cannot
+// reach the use (it is made together with a non-nil error whose `== nil` test lies on every path to the use).
+func c06SliceSources(f *core.FuncInfo, x *types.Var, use core.Point) ([]*types.Var, bool) {
+	srcs := []*types.Var{x}
+	ok := true
+	for i := 0; i < len(srcs) && len(srcs) < 6; i++ {
+		for _, a := range assignsToVar(f, srcs[i]) {
+			if a.RHS == nil {
+				continue
+			}
+			rhs := ast.Unparen(a.RHS)
+			if w := varOf(f, rhs); w != nil && !w.IsField() {
+				known := false
+				for _, s := range srcs {
+					known = known || s == w
+				}
+				if !known {
+					srcs = append(srcs, w)
+				}
+				continue
+			}
+			if core.IsNil(f.Info(), rhs) && !c06DeadBefore(f, a, use) {
+				ok = false
+			}
+		}
+	}
+	return srcs, ok
+}
+
+// c06DeadBefore: the multi-assignment a also gives an error variable a freshly made (non-nil) error, the
+// variable is not assigned again on the way, and every path from a to use takes an edge implying that the
+// error is nil: the values assigned by a never arrive at use.
+func c06DeadBefore(f *core.FuncInfo, a assignment, use core.Point) bool {
+	as, isAs := a.Stmt.(*ast.AssignStmt)
+	if !isAs || len(as.Lhs) != len(as.Rhs) {
+		return false
+	}
+	for i, l := range as.Lhs {
+		ev := varOf(f, l)
+		call, isCall := ast.Unparen(as.Rhs[i]).(*ast.CallExpr)
+		if ev == nil || !isCall || !hasSuffix(calleeName(f, call), "fmt.Errorf", "errors.New") {
+			continue
+		}
+		again := false
+		for _, b := range assignsToVar(f, ev) {
+			if b.Stmt != a.Stmt && f.CanReach(a.Pt, b.Pt) && f.CanReach(b.Pt, use) {
+				again = true
+			}
+		}
+		if again {
+			continue
+		}
+		if _, found := (core.PathQuery{F: f, From: a.Pt, FromAfter: true, Target: core.PointSet(use), AvoidEdge: f.EdgesImplying(varNilFact(f, ev, true))}).Find(); !found {
+			return true
+		}
+	}
+	return false
 }
 
 func c06Body(it *core.Iteration) core.Point { return core.Point{B: it.Head.Succs[0], I: 0} }
@@ -90,27 +156,83 @@ func runC06(c *core.Ctx) {
 	)
 
 	c.Clause("C06.gather", func() {
-		gf := c.Fn("vecfc.HighestBeforeSeq.GatherFrom")
+		// the inlined view: the search loop may live in a helper that returns the entry
+		gf := c06View(c.Fn("vecfc.HighestBeforeSeq.GatherFrom"), "vec", c06LeafVec)
 		res := func(e ast.Expr) ast.Expr { return resolveLocal(gf, e) }
 		to, from, self := gf.Param(0), gf.Param(2), gf.Recv()
-		var acc *types.Var
-		var sets []core.Point
+		var stored *types.Var
+		var sets []*core.CallSite
 		for _, cs := range gf.CallsTo(hbSet) {
-			if varOf(gf, cs.Recv()) != self || len(cs.Call.Args) != 2 {
+			if varOf(gf, res(cs.Recv())) != self || len(cs.Call.Args) != 2 {
 				continue
 			}
 			v := varOf(gf, cs.Call.Args[1])
-			c.Need(v != nil && (acc == nil || acc == v) && varOf(gf, cs.Call.Args[0]) == to, "GatherFrom stores one accumulated entry with Set(to, acc)")
-			acc = v
-			sets = append(sets, cs.Pt)
+			if v == nil {
+				v = varOf(gf, res(cs.Call.Args[1]))
+			}
+			c.Need(v != nil && (stored == nil || stored == v) && varOf(gf, res(cs.Call.Args[0])) == to, "GatherFrom stores one accumulated entry with Set(to, acc)")
+			stored = v
+			sets = append(sets, cs)
 		}
-		c.Need(acc != nil, "GatherFrom stores an accumulated entry with Set(to, acc)")
-		ok, wit := gf.MustPassAfter(gf.Entry(), sets)
+		c.Need(stored != nil, "GatherFrom stores an accumulated entry with Set(to, acc)")
+		ok, wit := gf.MustPassAfter(gf.Entry(), core.Points(sets))
 		c.Check(ok, "the merged entry is stored on every path", "T3 post-dominance", gf.Pos(), "every return passes self.Set(to, acc)", "GatherFrom can return without storing the merged entry: the validator's entry stays empty ("+gf.DescribePath(wit)+")")
+
+		// The stored variable may be a result carrier (the result variable of a single-exit form, or of a
+		// search helper in the inlined view): a variable that only receives copies `carrier = v` of another
+		// local. The accumulator is the root of these copies: the variable that is never a copy of another.
+		class := []*types.Var{stored}
+		inClass := func(v *types.Var) bool {
+			for _, w := range class {
+				if v != nil && v == w {
+					return true
+				}
+			}
+			return false
+		}
+		copyOf := func(a assignment) *types.Var { // a is `v = w` for a plain local w (not a parameter, not an entry read)
+			if a.RHS == nil {
+				return nil
+			}
+			w := varOf(gf, a.RHS)
+			if w == nil || w.IsField() || w == self || w == to || w == from || w == gf.Param(1) || w.Pkg() == nil || w.Parent() == w.Pkg().Scope() {
+				return nil
+			}
+			// a local that is defined once from something that is not a variable (the entry read
+			// `branch := other.Get(i)`) is a value, not a carrier
+			if defs := assignsToVar(gf, w); len(defs) == 1 && defs[0].RHS != nil && varOf(gf, defs[0].RHS) == nil {
+				return nil
+			}
+			return w
+		}
+		for grown := true; grown && len(class) < 6; {
+			grown = false
+			for _, a := range assignments(gf) {
+				if w := copyOf(a); w != nil && inClass(varOf(gf, a.LHS)) && !inClass(w) {
+					class = append(class, w)
+					grown = true
+				}
+			}
+		}
+		var acc *types.Var
+		nRoot := 0
+		for _, v := range class {
+			root := true
+			for _, a := range assignsToVar(gf, v) {
+				if w := copyOf(a); w != nil && w != v {
+					root = false
+				}
+			}
+			if root {
+				acc = v
+				nRoot++
+			}
+		}
+		c.Need(nRoot == 1, "the stored entry goes back to one accumulator variable")
 
 		var loop ast.Stmt
 		for _, a := range assignsToVar(gf, acc) {
-			if l := enclosingLoop(gf, a.Stmt.Pos()); l != nil {
+			if l := c06Loop(gf, a.Stmt); l != nil {
 				loop = l
 			}
 		}
@@ -124,7 +246,7 @@ func runC06(c *core.Ctx) {
 				return "acc"
 			}
 			if call, isCall := res(e).(*ast.CallExpr); isCall && calleeName(gf, call) == hbGet && len(call.Args) == 1 && it.IsElem(call.Args[0], res) {
-				if sel, isSel := call.Fun.(*ast.SelectorExpr); isSel && varOf(gf, sel.X) != self {
+				if sel, isSel := call.Fun.(*ast.SelectorExpr); isSel && varOf(gf, res(sel.X)) != self {
 					return "br"
 				}
 			}
@@ -142,18 +264,44 @@ func runC06(c *core.Ctx) {
 		greater := c06LinFact(gf, namer, "acc.Seq - br.Seq + 1 <= 0", "acc.Seq - br.Seq <= 0")
 
 		body := c06Body(it)
-		var updates, forkUpdates []core.Point
+		var updates, forkUpdates, inits []core.Point
+		var copies []assignment
+		carrierDefs := map[*types.Var][]core.Point{}
 		nInit := 0
 		for _, a := range assignments(gf) {
-			if varOf(gf, a.LHS) != acc {
+			lv := varOf(gf, a.LHS)
+			if !inClass(lv) {
 				// a store through the accumulator (acc.Seq = …) is a shape this rule does not read
 				root := ast.Unparen(a.LHS)
-				if sel, isSel := root.(*ast.SelectorExpr); isSel && varOf(gf, sel.X) == acc {
+				if sel, isSel := root.(*ast.SelectorExpr); isSel && inClass(varOf(gf, sel.X)) {
 					c.Undecided("field-wise update of the accumulator", "T8", a.Stmt.Pos(), "GatherFrom updates a field of the accumulated entry separately: the rule reads only whole-entry replacement")
 				}
 				continue
 			}
-			if enclosingLoop(gf, a.Stmt.Pos()) == nil {
+			if lv != acc {
+				// a result carrier: declared, copied from the class after the scan, or given the branch itself
+				// on the fork-detected edge (which ends the scan)
+				_, isDecl := a.Stmt.(*ast.ValueSpec)
+				switch {
+				case a.RHS == nil && isDecl:
+				case copyOf(a) != nil && inClass(copyOf(a)):
+					copies = append(copies, a)
+					carrierDefs[lv] = append(carrierDefs[lv], a.Pt)
+				case a.RHS != nil && role(a.RHS) == "br":
+					gF, witF := gf.GuardedBetween(body, a.Pt, isFork)
+					c.Check(gF, "a branch is handed out directly only when it is fork-detected", "T8 + T4", a.Stmt.Pos(), "the result takes the branch itself on the branch.IsForkDetected() edge", "the merged entry can be a branch that was not compared with the accumulated maximum: the reported sequence is not the highest observed ("+gf.DescribePath(witF)+")")
+					updates = append(updates, a.Pt)
+					if gF {
+						forkUpdates = append(forkUpdates, a.Pt)
+					}
+					carrierDefs[lv] = append(carrierDefs[lv], a.Pt)
+				default:
+					c.Fail("the stored entry is the accumulator or a fork-detected branch", "provenance", a.Stmt.Pos(), "the entry that is stored receives something that is neither the accumulated entry nor the current branch's entry")
+				}
+				continue
+			}
+			if c06Loop(gf, a.Stmt) == nil {
+				inits = append(inits, a.Pt)
 				nInit++
 				zero := false
 				if a.RHS == nil {
@@ -178,6 +326,36 @@ func runC06(c *core.Ctx) {
 		}
 		c.ExpectAtLeast("accumulator initialisations in GatherFrom", nInit, 1)
 		c.ExpectAtLeast("accumulator updates in GatherFrom", len(updates), 2)
+		// result carriers: a copy is taken when the scan is over, and what is stored / copied on has been given a value
+		for _, cp := range copies {
+			late := true
+			for _, u := range append(append([]core.Point(nil), updates...), inits...) {
+				if gf.CanReach(cp.Pt, u) {
+					late = false
+				}
+			}
+			c.Check(late, "the result is copied from the accumulator after the scan", "T17 Typestate", cp.Stmt.Pos(), "no replacement of the accumulator is reachable after the copy", "the entry that is stored is a copy taken before all branches were compared: a later, higher branch is not reported")
+		}
+		for _, v := range class {
+			if v == acc {
+				continue
+			}
+			var uses []core.Point
+			for _, cs := range sets {
+				if v == stored { // every Set stores the same variable (checked above)
+					uses = append(uses, cs.Pt)
+				}
+			}
+			for _, cp := range copies {
+				if copyOf(cp) == v {
+					uses = append(uses, cp.Pt)
+				}
+			}
+			for _, u := range uses {
+				okD, witD := gf.MustPassBefore(carrierDefs[v], u)
+				c.Check(okD && len(carrierDefs[v]) > 0, "the stored result has received the accumulated entry", "T2 dominance", posOf(u), "every path to the use passes `result = accumulator` or the fork-detected hand-out", "the entry can be stored without having received the accumulated entry: the validator's merged entry stays empty ("+gf.DescribePath(witD)+")")
+			}
+		}
 		// two-sided: a higher branch is always taken
 		edges := edgesWithFact(gf, greater)
 		for _, e := range edges {
@@ -204,12 +382,13 @@ func runC06(c *core.Ctx) {
 	})
 
 	c.Clause("C06.collect", func() {
-		cf := c.Fn("vecfc.HighestBeforeSeq.CollectFrom")
+		// the inlined view: the merge of one branch may live in a helper called from the loop
+		cf := c06View(c.Fn("vecfc.HighestBeforeSeq.CollectFrom"), "vec", c06LeafVec)
 		res := func(e ast.Expr) ast.Expr { return resolveLocal(cf, e) }
 		self, num := cf.Recv(), cf.Param(1)
 		var loop ast.Stmt
 		for _, cs := range cf.CallsTo(hbGet) {
-			if l := enclosingLoop(cf, cs.Pos()); l != nil {
+			if l := c06Loop(cf, cs.Call); l != nil {
 				loop = l
 			}
 		}
@@ -223,7 +402,7 @@ func runC06(c *core.Ctx) {
 		var mine *types.Var
 		for _, a := range assignments(cf) {
 			if call, isCall := ast.Unparen(a.RHS).(*ast.CallExpr); a.RHS != nil && isCall && calleeName(cf, call) == hbGet && len(call.Args) == 1 && isIdx(call.Args[0]) {
-				if sel, isSel := call.Fun.(*ast.SelectorExpr); isSel && varOf(cf, sel.X) == self {
+				if sel, isSel := call.Fun.(*ast.SelectorExpr); isSel && varOf(cf, res(sel.X)) == self {
 					mine = varOf(cf, a.LHS)
 				}
 			}
@@ -234,7 +413,7 @@ func runC06(c *core.Ctx) {
 			}
 			if call, isCall := res(e).(*ast.CallExpr); isCall && calleeName(cf, call) == hbGet && len(call.Args) == 1 && isIdx(call.Args[0]) {
 				if sel, isSel := call.Fun.(*ast.SelectorExpr); isSel {
-					if varOf(cf, sel.X) == self {
+					if varOf(cf, res(sel.X)) == self {
 						return "mine"
 					}
 					return "his"
@@ -260,7 +439,7 @@ func runC06(c *core.Ctx) {
 		toHead := func(b *cfg.Block) bool { return b == it.Head }
 		var writes []core.Point
 		for _, cs := range cf.CallsTo(hbSet, hbSetFD) {
-			if varOf(cf, cs.Recv()) == self {
+			if varOf(cf, res(cs.Recv())) == self {
 				writes = append(writes, cs.Pt)
 			}
 		}
@@ -277,7 +456,7 @@ func runC06(c *core.Ctx) {
 			// the raised entry is stored before the next branch
 			var stores []core.Point
 			for _, cs := range cf.CallsTo(hbSet) {
-				if varOf(cf, cs.Recv()) == self && len(cs.Call.Args) == 2 && isIdx(cs.Call.Args[0]) && role(cs.Call.Args[1]) == "mine" {
+				if varOf(cf, res(cs.Recv())) == self && len(cs.Call.Args) == 2 && isIdx(cs.Call.Args[0]) && role(cs.Call.Args[1]) == "mine" {
 					stores = append(stores, cs.Pt)
 				}
 			}
@@ -308,7 +487,8 @@ func runC06(c *core.Ctx) {
 	})
 
 	c.Clause("C06.fill", func() {
-		f := c.Fn("vecengine.Engine.fillEventVectors")
+		// the inlined view: the parent pre-load, the collection and the final store may each live in a helper
+		f := c06View(c.Fn("vecengine.Engine.fillEventVectors"), "engine", c06LeafEngine)
 		res := func(e ast.Expr) ast.Expr { return resolveLocal(f, e) }
 		ev := f.Param(0)
 		isParents := func(e ast.Expr) bool {
@@ -317,13 +497,14 @@ func runC06(c *core.Ctx) {
 				return false
 			}
 			sel, isSel := call.Fun.(*ast.SelectorExpr)
-			return isSel && varOf(f, sel.X) == ev
+			return isSel && varOf(f, res(sel.X)) == ev
 		}
 		collects := f.CallsMatching(func(cs *core.CallSite) bool { return methodNamed(cs.Name, "CollectFrom") })
 		c.Need(len(collects) >= 1, "fillEventVectors collects the parents' vectors")
 		before := collects[0].Recv()
 		nb := func(e ast.Expr) string {
-			if call, isCall := res(e).(*ast.CallExpr); isCall && calleeName(f, call) == "builtin.len" && len(call.Args) == 1 {
+			// a local that holds the (converted) length is looked through
+			if call, isCall := res(core.StripConv(f.Info(), res(e))).(*ast.CallExpr); isCall && calleeName(f, call) == "builtin.len" && len(call.Args) == 1 {
 				if _, pth := fieldPath(f, call.Args[0]); len(pth) >= 1 && pth[len(pth)-1] == "vecengine.BranchesInfo.BranchIDCreatorIdxs" {
 					return "nb"
 				}
@@ -332,7 +513,7 @@ func runC06(c *core.Ctx) {
 		}
 		for _, cs := range collects {
 			c.Need(c06SameLoc(f, cs.Recv(), before) && len(cs.Call.Args) == 2, "every CollectFrom targets the event's HighestBefore vector")
-			loop := enclosingLoop(f, cs.Pos())
+			loop := c06Loop(f, cs.Call)
 			c.Need(loop != nil, "CollectFrom is called in a loop over the parents")
 			it, okIt := core.IterationOf(f, loop, res)
 			c.Need(okIt && it.Head != nil && len(it.Head.Succs) > 0, "the loop around CollectFrom is a recognisable iteration")
@@ -352,13 +533,25 @@ func runC06(c *core.Ctx) {
 			} else if x := varOf(f, it.Coll); x != nil && it.IsElem(cs.Call.Args[0], res) {
 				n := 0
 				okProv = true
+				// the slice that is iterated may have been handed over by whole-variable assignments (the result
+				// of a loading helper in the inlined view): follow them back to the slice that is filled
+				srcs, okSrc := c06SliceSources(f, x, cs.Pt)
+				okProv = okSrc
+				isSrc := func(v *types.Var) bool {
+					for _, w := range srcs {
+						if v != nil && v == w {
+							return true
+						}
+					}
+					return false
+				}
 				for _, a := range assignments(f) {
 					ix, isIx := ast.Unparen(a.LHS).(*ast.IndexExpr)
-					if !isIx || varOf(f, ix.X) != x {
+					if !isIx || !isSrc(varOf(f, ix.X)) {
 						continue
 					}
 					n++
-					l2 := enclosingLoop(f, a.Stmt.Pos())
+					l2 := c06Loop(f, a.Stmt)
 					if l2 == nil {
 						okProv = false
 						continue
@@ -378,7 +571,7 @@ func runC06(c *core.Ctx) {
 		}
 		// initialisation with the event itself, before anything is collected or stored
 		inits := f.CallsMatching(func(cs *core.CallSite) bool {
-			return methodNamed(cs.Name, "InitWithEvent") && c06SameLoc(f, cs.Recv(), before) && len(cs.Call.Args) == 2 && varOf(f, cs.Call.Args[1]) == ev
+			return methodNamed(cs.Name, "InitWithEvent") && c06SameLoc(f, cs.Recv(), before) && len(cs.Call.Args) == 2 && varOf(f, res(cs.Call.Args[1])) == ev
 		})
 		stores := f.CallsMatching(func(cs *core.CallSite) bool {
 			return methodNamed(cs.Name, "SetHighestBefore") && len(cs.Call.Args) == 2
@@ -387,7 +580,7 @@ func runC06(c *core.Ctx) {
 		for _, st := range stores {
 			okID := false
 			if call, isCall := res(st.Call.Args[0]).(*ast.CallExpr); isCall && methodNamed(calleeName(f, call), "ID") {
-				if sel, isSel := call.Fun.(*ast.SelectorExpr); isSel && varOf(f, sel.X) == ev {
+				if sel, isSel := call.Fun.(*ast.SelectorExpr); isSel && varOf(f, res(sel.X)) == ev {
 					okID = true
 				}
 			}
@@ -435,17 +628,17 @@ func runC06(c *core.Ctx) {
 	})
 
 	c.Clause("C06.merge", func() {
-		eg := c.Fn("vecengine.Engine.GetMergedHighestBefore")
+		eg := c06View(c.Fn("vecengine.Engine.GetMergedHighestBefore"), "engine", c06LeafEngine)
 		res := func(e ast.Expr) ast.Expr { return resolveLocal(eg, e) }
 		id := eg.Param(0)
 		stored := func(e ast.Expr) bool {
 			call, isCall := res(e).(*ast.CallExpr)
-			return isCall && methodNamed(calleeName(eg, call), "GetHighestBefore") && len(call.Args) == 1 && varOf(eg, call.Args[0]) == id
+			return isCall && methodNamed(calleeName(eg, call), "GetHighestBefore") && len(call.Args) == 1 && varOf(eg, res(call.Args[0])) == id
 		}
 		gathers := eg.CallsMatching(func(cs *core.CallSite) bool { return methodNamed(cs.Name, "GatherFrom") && len(cs.Call.Args) == 3 })
 		c.Need(len(gathers) == 1, "exactly one GatherFrom call in GetMergedHighestBefore")
 		g := gathers[0]
-		loop := enclosingLoop(eg, g.Pos())
+		loop := c06Loop(eg, g.Call)
 		c.Need(loop != nil, "GatherFrom is called in a loop over the creators")
 		it, okIt := core.IterationOf(eg, loop, res)
 		c.Need(okIt && it.Head != nil && len(it.Head.Succs) > 0, "the creators loop is a recognisable iteration")
